@@ -195,6 +195,10 @@ def all_links(spec):
     for fil in spec["files"]:
         if fil["kind"] == "ff":
             for i in fil["links"]:
+                if spec["links"][i].get("molmeta"):
+                    # a link that asks for a molecule attribute ([ molmeta ] scfix true ...) which a molecule
+                    # built by gen_params never carries: it applies nowhere
+                    continue
                 links.append(dict(copy.deepcopy(spec["links"][i]), index=i,
                                   all_edges=edge_modes(spec)[1].get(i, False)))
         else:
